@@ -61,8 +61,14 @@ func run(c *mon.Ctx) {
 		if ref.CRC32MPEG2(sec) != 0 {
 			panic("reference encoder produced a bad CRC")
 		}
-		in := s.Payload()
+		in := r.Slack(s.Payload())
 		snap := append([]byte{}, in...)
+		if i%8 == 3 {
+			// right after calls that fail: no state is carried over
+			scte35.NewSCTE35(in[:r.Intn(len(in))])
+			scte35.NewSCTE35(nil)
+			c.Count("decode_after_failed_decode")
+		}
 		x, err := scte35.NewSCTE35(in)
 		c.Eval(1)
 		if rej != "" {
